@@ -6,7 +6,7 @@ VARIABLE l
 Lines == TLCGet(7)
 Init == TLCSet(7, ndJsonDeserialize(IOEnv.TRACE_FILE)) /\ l = 1
 Judge(e) == LET r == FirstFail(GridClauses(e))
-            IN IF r # "ok" THEN PrintT(<<"BAD", e.tid, l, r>>)
+            IN IF r # "ok" THEN PrintT(<<"BAD", e.tid, l, AllFail(GridClauses(e))>>)
                ELSE IF ~SameConvention(e) THEN PrintT(<<"DRIFT", e.tid, l, "numbering">>)
                ELSE TRUE
 Next == /\ l <= Len(Lines)
